@@ -1,6 +1,8 @@
 /* coreenv - the vm_env that binds vmodel to the real runtime API (ScheduleNewEvent, rs_malloc, Random, ...) */
 #include "vmodel.h"
 #include <ROOT-Sim.h>
+#include <core/core.h>
+#include <lp/lp.h>
 
 static void ce_schedule(uint64_t receiver, double t, unsigned type, const void *pl, unsigned size)
 {
@@ -55,7 +57,13 @@ static void ce_stop(void)
 	RootsimStop();
 }
 
+static uint64_t ce_rng_hash(void)
+{
+	const uint64_t *st = current_lp->rng_ctx->state;
+	return vm_mix(vm_mix(st[0], st[1]), vm_mix(st[2], st[3]));
+}
+
 struct vm_env vm_core_env = {
     .schedule = ce_schedule, .alloc = ce_alloc, .realloc_ = ce_realloc, .free_ = ce_free, .set_state = ce_set_state,
     .u64 = ce_u64, .random = ce_random, .expent = ce_expent, .normal = ce_normal, .gamma = ce_gamma, .zipf = ce_zipf,
-    .range = ce_range, .stop = ce_stop};
+    .range = ce_range, .stop = ce_stop, .rng_hash = ce_rng_hash};
